@@ -78,10 +78,12 @@ def pool(kind, sdim, gen):
 
 
 def geo_of(kind, sdim, aniso):
+    # aniso: False | True (anisotropic + rotated) | "axis" (anisotropic along the coordinate axes, all angles 0)
+    rot = aniso is True
     if kind == "euclid":
-        return kr.Geo("euclid", sdim, anis=[0.6, 1.4][: sdim - 1] if aniso else None, angles=[0.5, -0.3, 0.8][: sdim * (sdim - 1) // 2] if aniso else None)
+        return kr.Geo("euclid", sdim, anis=[0.6, 1.4][: sdim - 1] if aniso else None, angles=[0.5, -0.3, 0.8][: sdim * (sdim - 1) // 2] if rot else None)
     if kind == "time":
-        return kr.Geo("euclid+time", 2, anis=[0.6] if aniso else None, angles=[0.5] if aniso else None, t_anis=0.5 if aniso else 1.0)
+        return kr.Geo("euclid+time", 2, anis=[0.6] if aniso else None, angles=[0.5] if rot else None, t_anis=0.5 if aniso else 1.0)
     if kind == "latlon":
         return kr.Geo("latlon", 3, geo_scale=gs.KM_SCALE if aniso else 1.0)
     return kr.Geo("latlon+time", 3, geo_scale=gs.KM_SCALE if aniso else 1.0, t_anis=0.25 if aniso else 1.0)
@@ -523,8 +525,10 @@ def run(chk):
                     continue
                 if cls == "Circular" and not (kind == "euclid" and sdim <= 2):
                     continue
-                for aniso in (False, True):
+                for aniso in (False, True, "axis"):
                     if kind == "euclid" and sdim == 1 and aniso:
+                        continue
+                    if aniso == "axis" and (kind.startswith("latlon") or variant not in ("Universal", "UniversalCustom", "DriftExt", "GenericDrift", "Ordinary") or cls != "Exponential"):
                         continue
                     # complete subset sweep for the reference model of each configuration, selected layouts otherwise
                     full = cls == "Exponential" and not aniso and (tier != "quick" or variant in ("Simple", "Ordinary", "Universal"))
@@ -535,7 +539,7 @@ def run(chk):
                     for lay in layouts(P, nm, max(nm, nmax), full):
                         for nug in ((0.0, 0.3) if tier != "quick" and len(lay) <= 4 else (0.0 if len(lay) % 2 else 0.3,)):
                             cases.append({"variant": variant, "cls": cls, "kind": kind, "sdim": sdim, "aniso": aniso, "layout": lay, "nugget": nug, "gen": gen, "perm_n": 3 if tier == "quick" else 4})
-    chk.run("krige", case_krige, cases, rule="variant (Simple, Ordinary, Universal linear/quadratic/custom, ExtDrift, Detrended, generic drift without unbiasedness) x model x {dim 1,2,3, 2D+time, lat-lon, lat-lon+time} x {isotropic, anisotropic+rotated / km scale + time anisotropy} x conditioning layouts (all k-subsets of the point pool for the reference model, selected subsets otherwise) x nugget; inside each case: exact x measurement-error kind x pseudo-inverse type, unit-vector / constant / drift / generic data, chunk sizes, mesh types, all permutations of <= 4 data and 4 targets, mean/trend/normalizer combinations", max_skip_frac=0.6, chunk=4)
+    chk.run("krige", case_krige, cases, rule="variant (Simple, Ordinary, Universal linear/quadratic/custom, ExtDrift, Detrended, generic drift without unbiasedness) x model x {dim 1,2,3, 2D+time, lat-lon, lat-lon+time} x {isotropic, anisotropic+rotated, anisotropic along the axes / km scale + time anisotropy} x conditioning layouts (all k-subsets of the point pool for the reference model, selected subsets otherwise) x nugget; inside each case: exact x measurement-error kind x pseudo-inverse type, unit-vector / constant / drift / generic data, chunk sizes, mesh types, all permutations of <= 4 data and 4 targets, mean/trend/normalizer combinations", max_skip_frac=0.6, chunk=4)
     # histories of in-place model changes, refreshes and new conditions
     depth = 3 if tier == "quick" else 4
     hcases = refresh_cases(tier, gen, list(MOPS), depth)
